@@ -329,6 +329,61 @@ impl<'ast> Visit<'ast> for SiteWalk {
     fn visit_stmt_macro(&mut self, _m: &'ast syn::StmtMacro) {}
 }
 
+/// statement shape of a function body: every `let` binding and every assignment, in order, with its innermost guard
+struct BodyWalk {
+    guard: Vec<String>,
+    out: Vec<(String, String)>,
+}
+
+impl BodyWalk {
+    fn rec(&mut self, text: String) {
+        let g = self.guard.last().cloned().unwrap_or_default();
+        self.out.push((text, g));
+    }
+}
+
+impl<'ast> Visit<'ast> for BodyWalk {
+    fn visit_local(&mut self, l: &'ast syn::Local) {
+        if let Some(init) = &l.init {
+            self.rec(format!("let {}={}", compact(&l.pat), compact(&init.expr)));
+            if let Some((_, d)) = &init.diverge {
+                self.guard.push("let-else".to_string());
+                self.visit_expr(d);
+                self.guard.pop();
+            }
+        }
+    }
+
+    fn visit_expr_assign(&mut self, a: &'ast syn::ExprAssign) {
+        self.rec(format!("{}={}", compact(&a.left), compact(&a.right)));
+    }
+
+    fn visit_expr_return(&mut self, _r: &'ast syn::ExprReturn) {
+        self.rec("return".to_string());
+    }
+
+    fn visit_expr_if(&mut self, i: &'ast syn::ExprIf) {
+        let c = compact(&i.cond);
+        self.guard.push(format!("if {c}"));
+        self.visit_block(&i.then_branch);
+        self.guard.pop();
+        if let Some((_, e)) = &i.else_branch {
+            self.guard.push(format!("else({c})"));
+            self.visit_expr(e);
+            self.guard.pop();
+        }
+    }
+
+    fn visit_expr_macro(&mut self, _m: &'ast syn::ExprMacro) {}
+    fn visit_stmt_macro(&mut self, _m: &'ast syn::StmtMacro) {}
+}
+
+const BODIES: &[(&str, &str, &str, &str)] = &[
+    ("queueLinkTailBody", "compio-executor/src/queue.rs", "Inner", "link_tail"),
+    ("queueUnlinkBody", "compio-executor/src/queue.rs", "Inner", "unlink"),
+    ("queueNextBody", "compio-executor/src/queue.rs", "Iter<'a>", "next"),
+];
+
 fn find_fn<'a>(file: &'a syn::File, t: &Target) -> Option<&'a syn::ImplItemFn> {
     for it in &file.items {
         let syn::Item::Impl(im) = it else { continue };
@@ -393,6 +448,23 @@ pub fn generate(repo: &Path) -> Res<String> {
             }
             s.push_str("]\n\n");
         }
+    }
+    // statement shapes of the intrusive-list primitives of queue.rs
+    for (lean, path, ty, func) in BODIES {
+        let file = parse_file(&repo.join(path))?;
+        let t = Target { lean, file: path, ty, tr: if *func == "next" { Some("Iterator") } else { None }, func, calls: &[] };
+        let f = find_fn(&file, &t).ok_or(format!("{path}: fn {ty}::{func} not found"))?;
+        let mut w = BodyWalk { guard: vec![], out: vec![] };
+        w.visit_block(&f.block);
+        if w.out.is_empty() {
+            return Err(format!("{path}: {ty}::{func}: empty body shape"));
+        }
+        writeln!(s, "/-- `{ty}::{func}` ({path}): every `let` and every assignment in order, with its innermost guard -/").unwrap();
+        writeln!(s, "def {lean} : List (String × String) := [").unwrap();
+        for (i, (c, g)) in w.out.iter().enumerate() {
+            writeln!(s, "  ({}, {}){}", lean_str(c), lean_str(g), if i + 1 < w.out.len() { "," } else { "" }).unwrap();
+        }
+        s.push_str("]\n\n");
     }
     // Remote::poll: the shape of every finish_setting_waker call site
     {
